@@ -47,6 +47,8 @@ def envelope_doc(rng, d, icvn='00401', n_isa=1, max_groups=2, max_sets=2, max_bo
         used_g = []
         for _g in range(ngroups):
             gcn = str(rng.randint(1, 99999))
+            if rng.random() < faults / 3:
+                gcn = rng.choice(['GRP1', 'A', '1x'])       # control numbers are compared as text, not as numbers
             if used_g and rng.random() < faults:
                 gcn = rng.choice(used_g)
             used_g.append(gcn)
@@ -55,6 +57,8 @@ def envelope_doc(rng, d, icvn='00401', n_isa=1, max_groups=2, max_sets=2, max_bo
             used_s = []
             for _s in range(nsets):
                 scn = '%04d' % rng.randint(1, 9999)
+                if rng.random() < faults / 3:
+                    scn = rng.choice(['SET1', 'B', '7y'])
                 if used_s and rng.random() < faults:
                     scn = rng.choice(used_s)
                 used_s.append(scn)
@@ -64,13 +68,13 @@ def envelope_doc(rng, d, icvn='00401', n_isa=1, max_groups=2, max_sets=2, max_bo
                 cnt = str(len(body) + 2)
                 if rng.random() < faults:
                     cnt = rng.choice(BAD_COUNTS + [str(len(body) + 1), str(len(body) + 3)])
-                sid = scn if rng.random() >= faults else rng.choice(['0000', scn + '1', ''])
+                sid = scn if rng.random() >= faults else rng.choice(['0000', scn + '1', '', '0' + scn, scn.lstrip('0'), scn[:-1] + 'z', '+' + scn])
                 out.append(seg(d, 'SE', cnt, sid))
             cnt = str(nsets) if rng.random() >= faults else rng.choice(BAD_COUNTS + [str(nsets + 1)])
-            gid = gcn if rng.random() >= faults else rng.choice(['0', gcn + '0', ''])
+            gid = gcn if rng.random() >= faults else rng.choice(['0', gcn + '0', '', '0' + gcn, '00' + gcn, gcn[:-1] + 'z', '+' + gcn])
             out.append(seg(d, 'GE', cnt, gid))
         cnt = str(ngroups) if rng.random() >= faults else rng.choice(BAD_COUNTS + [str(ngroups + 1)])
-        iid = icn if rng.random() >= faults else rng.choice(['000000000', icn[:-1] + 'x', ''])
+        iid = icn if rng.random() >= faults else rng.choice(['000000000', icn[:-1] + 'x', '', icn.lstrip('0'), '0' + icn, '+' + icn[1:]])
         out.append(seg(d, 'IEA', cnt, iid))
     return out
 
